@@ -542,20 +542,37 @@ def _work_items(cfgs) -> List[Tuple[int, List[int], Optional[int]]]:
     return items
 
 
+class _StopSubtree(Exception):
+    pass
+
+
 def _shard(shard: int, nshards: int, extra) -> Tally:
     cfgs, items = _W["cfgs"], _W["items"]
     t = Tally()
+    bad_cfg: Dict[int, int] = {}
     for wi in range(shard, len(items), nshards):
         ci, prefix, only = items[wi]
         cfg, bound, cap = cfgs[ci]
         name = cfg_name(cfg)
         seen_sig = set()
+        bad_here = [0]
+        if bad_cfg.get(ci, 0) > 60:
+            t.inc("subtrees_skipped_configuration_already_broken")
+            continue
 
         def on_result(choices, res, cfg=cfg, name=name):
             t.inc("executions")
             t.inc("handles", 0)
             t.mark("outcomes", (ci, outcome_key(res)))
-            for oracle, detail in judge(cfg, res):
+            fails = judge(cfg, res)
+            if fails:
+                bad_here[0] += 1
+                bad_cfg[ci] = bad_cfg.get(ci, 0) + 1
+                if bad_here[0] > 20 or bad_cfg[ci] > 60:
+                    # this sub-tree of schedules is broken through and through (each livelocked
+                    # execution alone runs to the step horizon): the witnesses are in hand
+                    raise _StopSubtree()
+            for oracle, detail in fails:
                 sig = ["channel", oracle, cfg_class(cfg)]
                 t.inc("violating_executions")
                 if (ci, oracle) in seen_sig:
@@ -570,7 +587,11 @@ def _shard(shard: int, nshards: int, extra) -> Tally:
             t.inc("choice_points", len(choices))
             continue
         sub_bound = None if bound is None else bound  # prefix already used one deviation (counted inside explore)
-        stats = explore(lambda p: run_config(cfg, p), sub_bound, max(1000, cap // 8), on_result, start=prefix)
+        try:
+            stats = explore(lambda p: run_config(cfg, p), sub_bound, max(1000, cap // 8), on_result, start=prefix)
+        except _StopSubtree:
+            t.inc("subtrees_stopped_after_violating_executions")
+            continue
         t.inc("choice_points", stats["choice_points"])
         if stats["capped"]:
             t.inc("capped_subtrees")
